@@ -3,7 +3,7 @@
 load case     : {"kind":"load","obj":{...},"compress":0|[name,level],"trunc":"all"|[n,...]|{"auto":k},
                  "trailers":[{"kind":"bytes","n":k}|{"kind":"stream"}],"via":"bytesio"|"path"}
 readbytes case: {"kind":"readbytes","n":int,"size":int,"caps":[int,...],"eof_after":int|null}
-memory case   : {"kind":"memory","obj":{...},"compress":false|true|int|[name,level],"damage":[["trunc",n]|["frac",a,b]
+memory case   : {"kind":"memory","obj":{...},"compress":false|true|int|[name,level],"damage":[["trunc",n]|["trunc_all"]|["trunc_auto",k]|["frac",a,b]
                  |["extend",k]|["double"]]}
 
 Every load / call runs under a watchdog: SIGALRM (pure-Python loops) plus, for zlib/gzip, the
@@ -254,7 +254,15 @@ def run_memory(c):
         path = os.path.join(cf.store_backend.location, cf.func_id, cf._get_args_id(1), "output.pkl")
         orig = open(path, "rb").read()
         res = []
+        damages = []
         for dmg in c["damage"]:
+            if dmg[0] == "trunc_all":      # every length 0..len-1
+                damages += [["trunc", n] for n in range(len(orig))]
+            elif dmg[0] == "trunc_auto":   # first/last 24 bytes, 8192-boundaries +-1, fractions, random points
+                damages += [["trunc", n] for n in trunc_points({"auto": dmg[1]}, len(orig), random.Random(len(orig)))]
+            else:
+                damages.append(dmg)
+        for dmg in damages:
             if dmg[0] == "trunc":
                 bad = orig[:max(0, min(len(orig) - 1, dmg[1]))]
             elif dmg[0] == "frac":
